@@ -526,4 +526,63 @@ def iapply (sys : Sys) : IOp → Sys
   | .spawn a prog => ⟨sys.s, sys.subs ++ [⟨a, prog, 0, none⟩]⟩
   | .tick hw i => tick hw sys i
 
+/-! ### Aborted subroutines, several executors
+
+A runtime may drop a suspended subroutine instead of resuming it (driver abort, `generator.close()`,
+a simulator hook that raises).  The executor only yields *between* the atomic effects of
+instructions: `qfree` clears the mapping and un-marks the physical qubit before its reset hook
+(the one yield point inside an instruction of this model) runs.  So a subroutine is dropped either
+between two instructions (`abort`) or right after the complete effect of its next instruction
+(`abortMid`). `fin = some _` marks a subroutine that will not run any more. -/
+
+def abort (sys : Sys) (i : Nat) : Sys :=
+  match sys.subs[i]? with
+  | none => sys
+  | some sb => ⟨sys.s, sys.subs.set i { sb with fin := some (sb.fin.getD .halted) }⟩
+
+def abortMid (hw : Bool) (sys : Sys) (i : Nat) : Sys := abort (tick hw sys i) i
+
+/-- the instruction subroutine `i` would execute next -/
+def nextInstr (sys : Sys) (i : Nat) : Option Instr :=
+  match sys.subs[i]? with
+  | none => none
+  | some sb =>
+    match sb.fin with
+    | some _ => none
+    | none => (pyIdx sb.prog.length sb.pc).bind (fun k => sb.prog[k]?)
+
+/-- several executors in one process (the nodes of a simulated network): the model has no
+component shared between them — each is an independent `Sys` -/
+def mapply (m : List Sys) (k : Nat) (op : IOp) : List Sys :=
+  match m[k]? with
+  | none => m
+  | some sys => m.set k (iapply sys op)
+
+/-! ### Driver guard against huge allocations
+
+`array` with a register holding, say, 2^40 would make the compiled model allocate that many cells.
+The real-code harness never lets the executor do that (it cuts the scenario), so the driver refuses
+too: `runG` is `run`, executed one instruction at a time, that gives up (`none`) when the next
+instruction is an `array` of more than `arrayGuard` cells (`Lemmas/ExecRun.lean`: `runG_eq_run`). -/
+
+def arrayGuard : Int := 100000
+
+def bigArrayNext (s : State) (a : Nat) (prog : List Instr) (pc : Int) : Bool :=
+  match (pyIdx prog.length pc).bind (fun k => prog[k]?) with
+  | some (.array sz _) =>
+    (match (s.apps a).bind (fun ap => ap.regs sz) with
+     | some n => decide (n > arrayGuard)
+     | none => false)
+  | _ => false
+
+def runG (hw : Bool) (a : Nat) (prog : List Instr) : Nat → State → Int → Option RunOut
+  | 0, s, pc => some (run hw a prog 0 s pc)
+  | n + 1, s, pc =>
+    if bigArrayNext s a prog pc then none
+    else
+      let r1 := run hw a prog 1 s pc
+      match r1.out with
+      | .outOfFuel => (runG hw a prog n r1.s r1.pc).map (fun r => { r with visited := r1.visited ++ r.visited })
+      | _ => some r1
+
 end NQ.Exec
